@@ -1062,7 +1062,7 @@ fn group_entry_to_fields(
       let is_optional = ge
         .occur
         .as_ref()
-        .map(|o| matches!(o.occur, Occur::Optional { .. }))
+        .map(|o| is_optional_occurrence(&o.occur))
         .unwrap_or(false);
       let ast_doc = ast_entry_doc(entry);
       let doc = if ast_doc.is_empty() {
@@ -1083,7 +1083,7 @@ fn group_entry_to_fields(
     GroupEntry::InlineGroup { group, occur, .. } => {
       let is_optional = occur
         .as_ref()
-        .map(|o| matches!(o.occur, Occur::Optional { .. }))
+        .map(|o| is_optional_occurrence(&o.occur))
         .unwrap_or(false);
       let mut fields = group_to_fields(group, comments)?;
       if is_optional {
@@ -1142,7 +1142,7 @@ fn value_member_key_to_field(
   let is_optional = vmke
     .occur
     .as_ref()
-    .map(|o| matches!(o.occur, Occur::Optional { .. }))
+    .map(|o| is_optional_occurrence(&o.occur))
     .unwrap_or(false);
 
   let is_vec = vmke
@@ -1200,6 +1200,20 @@ fn vmke_line(vmke: &ValueMemberKeyEntry<'_>) -> usize {
     Some(MemberKey::Type1 { span, .. }) => span.2,
     _ => vmke.entry_type.span.2,
   }
+}
+
+/// `?` and its spelled-out forms `0*1` / `*1` (RFC 8610 Section 3.2): the member
+/// may be absent, so the field is an `Option`
+fn is_optional_occurrence(occur: &Occur) -> bool {
+  matches!(
+    occur,
+    Occur::Optional { .. }
+      | Occur::Exact {
+        lower: None | Some(0),
+        upper: Some(1),
+        ..
+      }
+  )
 }
 
 fn is_vec_occurrence(occur: &Occur) -> bool {
